@@ -3,7 +3,8 @@
  * coap_socket_read(); what the protocol layer receives is logged.
  *
  * usage: drv_stream <cases.txt> <out.ndjson>
- *   X id=<n> max=<csm max message size, 0 = default> edge=<0|1>
+ *   X id=<n> max=<csm max message size, 0 = default> edge=<0|1> ws=<0|1> http=<length of the HTTP upgrade request at the start of the stream>
+ *        ws=1: a WebSocket endpoint (RFC 8323 section 8): the stream is the upgrade request followed by masked frames
  *        edge=1: readiness is signalled once per arriving chunk (until the first read after its arrival), the way a
  *        TLS layer underneath behaves: the record is decrypted by the first read and the rest sits in the TLS
  *        library's buffer, the socket does not become readable again for it
@@ -31,7 +32,7 @@ static size_t chunks[4096];
 static int nchunks, curchunk;
 static size_t chunk_left;
 static int chunk_open, accepted, closed, cfd = -1;
-static int edge, signalled_read;     /* edge mode: a read has been made since the last arrival */
+static int edge, signalled_read, ws, httplen;     /* edge mode: a read has been made since the last arrival */
 static struct { int bid; size_t len; } blobs[32];
 static int nblobs;
 
@@ -135,7 +136,7 @@ static int h_event(coap_session_t *s, const coap_event_t ev) {
     coap_session_reference(s);
   }
   if (s == sess && (ev == COAP_EVENT_TCP_CLOSED || ev == COAP_EVENT_SESSION_CLOSED || ev == COAP_EVENT_SESSION_FAILED ||
-                    ev == COAP_EVENT_TCP_FAILED)) {
+                    ev == COAP_EVENT_TCP_FAILED || ev == COAP_EVENT_WS_CLOSED)) {
     if (!closed) fputs("{\"e\":\"Closed\"}\n", sim_trace);
     closed = 1;
   }
@@ -143,6 +144,7 @@ static int h_event(coap_session_t *s, const coap_event_t ev) {
 }
 
 static void run_case(int id, int max) {
+  coap_proto_t proto = ws ? COAP_PROTO_WS : COAP_PROTO_TCP;
   coap_address_t a;
   coap_resource_t *r;
   struct sockaddr_in sa;
@@ -156,7 +158,7 @@ static void run_case(int id, int max) {
   for (i = 1; i <= 7; i++) coap_register_request_handler(r, (coap_request_t)i, h_req);
   coap_add_resource(ctx, r);
   sim_addr(&a, "127.0.0.1", 0);
-  ep = coap_new_endpoint(ctx, &a, COAP_PROTO_TCP);
+  ep = coap_new_endpoint(ctx, &a, proto);
   sim_add_node(ctx);
   accepted = closed = 0;
   sess = NULL;
@@ -168,8 +170,8 @@ static void run_case(int id, int max) {
   sa.sin_port = ep->bind_addr.addr.sin.sin_port;
   sa.sin_addr.s_addr = htonl(INADDR_LOOPBACK);
   if (connect(cfd, (struct sockaddr *)&sa, sizeof(sa)) < 0) { fputs("{\"e\":\"Crash\"}\n", sim_trace); return; }
-  fprintf(sim_trace, "{\"e\":\"Reset\",\"id\":%d,\"max\":%lu}\n", id,
-          (unsigned long)(max ? max : 8388864));
+  fprintf(sim_trace, "{\"e\":\"Reset\",\"id\":%d,\"max\":%lu,\"proto\":\"%s\",\"http\":%d}\n", id,
+          (unsigned long)(max ? max : 8388864), ws ? "ws" : "tcp", httplen);
   fputs("{\"e\":\"Stream\",\"w\":", sim_trace);
   atoms(stream, slen);
   fputs("}\n", sim_trace);
@@ -234,6 +236,10 @@ int main(int argc, char **argv) {
       max = p ? atoi(p + 4) : 0;
       p = strstr(line, "edge=");
       edge = p ? atoi(p + 5) : 0;
+      p = strstr(line, "ws=");
+      ws = p ? atoi(p + 3) : 0;
+      p = strstr(line, "http=");
+      httplen = p ? atoi(p + 5) : 0;
       slen = 0; nchunks = 0; nblobs = 0;
       sim_reset(1000);
     } else if (line[0] == 'K') {
